@@ -12,7 +12,7 @@ SCRATCH = os.environ.get("VERIF_SELFTEST_DIR", "/tmp/verif-selftest")
 # which checks are expected to catch which change (first = the property the change was written for)
 EXPECT = {
     "c01": ["C01"], "c02_array_set_or": ["C02", "C03"], "c02_w64_mask17": ["C02"], "c03": ["C03"], "c04": ["C04"], "c05": ["C05"],
-    "c06d": ["C06"], "c06e": ["C06"], "c07": ["C07"], "c08": ["C08"], "c09": ["C09"], "c10": ["C10"], "c11": ["C09"], "c12": ["C12", "C02"],
+    "c06d": ["C06"], "c06e": ["C06"], "c06_default_debug": ["C06"], "c07": ["C07"], "c08": ["C08"], "c09": ["C09"], "c10": ["C10"], "c11": ["C09"], "c12": ["C12", "C02"],
     "c13": ["C13"], "c14": ["C14"], "c15": ["C15"], "c16_32": ["C16"], "c17": ["C17"], "c18": ["C18"], "c19b": ["C19"],
     "seed-C01": ["C01"], "seed-C02": ["C02", "C03", "C04"], "seed-C03": ["C03", "C02", "C04"], "seed-C04": ["C04", "C02", "C03"], "seed-C05": ["C05"],
     "seed-C06": ["C06"], "seed-C07": ["C07"], "seed-C08": ["C08"], "seed-C09": ["C09"], "seed-C10": ["C10"], "seed-C11": ["C11"],
